@@ -3,6 +3,7 @@ import AlgoVerif.Proofs.C04Binomial
 import AlgoVerif.Proofs.C04Fib
 import AlgoVerif.Proofs.C04MaxDegree
 import AlgoVerif.Proofs.C04BinomialShape
+import AlgoVerif.Proofs.C04Gen
 /-!
 # C04 — heaps are priority queues (property theorems; helper lemmas in `Proofs/C04*.lean`)
 
@@ -151,3 +152,63 @@ example : (match (binomialImpl cmpAsc (fun a b : Int => a == b)).stateAfter (fun
   simp [Impl.stateAfter, Impl.mstep, binomialImpl, Binomial.step, update, Binomial.insert, Binomial.union,
     Binomial.merge, Binomial.consolidate, Binomial.consLoop, Binomial.new, Tree.leaf, Tree.deg,
     Binomial.sibSameOrder, Tree.link, cmpAsc, Tree.key, Binomial.mergeWith]
+
+/-! ## the second tie (binary heap): the Model REGENERATED from the source
+
+`AlgoVerif.Generated.Heap.*` (file `Generated/C04Gen.lean`) is produced from `/repo/heap/binary.go` by the
+translator `/verif/extract/go2lean` on every run of this check (`bin/pre-C04`; `DOT` and the test-only `verify` are
+excluded by name; scheme, subset and what is trusted: header of `extract/go2lean/main.go`).  The hand Model keeps
+the count and every index as a `Nat` and a cell `*generic.KeyValue` as `Option (K × V)`; `Gen.toM` reads the
+generated structure (count `Int`, cells `Option (KeyValue K V)`) as the Model's, for states with `0 ≤ h.n` — the
+only ones the Model can express.  `x = .diverge ∨ x = y` ("refines"): the hand Model ran out of ITS fuel — which
+`C04_binary` excludes for the states that occur — or the generated definition, given at least the stated fuel,
+returns exactly the same outcome (same heap array, same result, same panic).  Each theorem is per operation, for
+ANY state with `0 ≤ h.n` (reachable or not) and any callbacks.  An edit of `binary.go` that changes what a method
+computes changes the generated file and these stop checking.  (`binomial.go`, `fibonacci.go`: pointer-linked trees,
+outside the translator's subset.) -/
+
+open AlgoVerif.Generated.Heap AlgoVerif.C04.Gen
+
+/-- `NewBinary`, `DeleteAll`, `Size`, `IsEmpty`, `Peek` (no loop: equalities) -/
+theorem C04_generated_binary_simple {K V : Type} [Inhabited K] [Inhabited V] (h : binary K V) (hn : 0 ≤ h.n)
+    (size : Nat) (cmp : K → K → Int) (eq : V → V → Bool) :
+    (NewBinary (size : Int) cmp eq).map toM = .ok (Binary.new size) ∧
+    (binary.DeleteAll h).map toM = .ok (toM h).deleteAll ∧
+    binary.Size h = ((toM h).n : Int) ∧ binary.IsEmpty h = decide ((toM h).n = 0) ∧
+    (binary.Peek h).map kvOpt = (toM h).peek :=
+  ⟨NewBinary_eq size cmp eq, DeleteAll_eq h, Size_eq h hn, IsEmpty_eq h hn, Peek_eq h hn⟩
+
+/-- `ContainsKey`, `ContainsValue`: counted loops with a `return` inside (no fuel on the generated side) -/
+theorem C04_generated_binary_contains_refines {K V : Type} [Inhabited K] [Inhabited V] (h : binary K V)
+    (hn : 0 ≤ h.n) (key : K) (val : V) :
+    ((toM h).containsKey h.cmpKey key = .diverge ∨ (toM h).containsKey h.cmpKey key = binary.ContainsKey h key) ∧
+    ((toM h).containsValue h.eqVal val = .diverge ∨
+      (toM h).containsValue h.eqVal val = binary.ContainsValue h val) :=
+  ⟨ContainsKey_le h hn key, ContainsValue_le h hn val⟩
+
+/-- `Insert` (optional `resize`, the swim loop, the store) with any fuel `≥ h.n + 2` -/
+theorem C04_generated_binary_insert_refines {K V : Type} [Inhabited K] [Inhabited V] (h : binary K V)
+    (hn : 0 ≤ h.n) (key : K) (val : V) (fuel : Nat) (hf : h.n.toNat + 2 ≤ fuel) :
+    Binary.insert h.cmpKey (toM h) key val = .diverge ∨
+      Binary.insert h.cmpKey (toM h) key val = (binary.Insert fuel h key val).map toM := by
+  obtain ⟨d, rfl⟩ : ∃ d, fuel = h.n.toNat + 2 + d := ⟨fuel - (h.n.toNat + 2), by omega⟩
+  exact Insert_le h hn key val d
+
+/-- `Delete` (the sink loop with its `break`, two stores, optional `resize`) with any fuel `≥ h.n + 1`; Go's
+`(K, V, bool)` result is read as the Model's `Option (K × V)` -/
+theorem C04_generated_binary_delete_refines {K V : Type} [Inhabited K] [Inhabited V] (h : binary K V)
+    (hn : 0 ≤ h.n) (fuel : Nat) (hf : h.n.toNat + 1 ≤ fuel) :
+    Binary.delete h.cmpKey (toM h) = .diverge ∨
+      Binary.delete h.cmpKey (toM h) = (binary.Delete fuel h).map (fun r => (toM r.1, kvOpt r.2)) := by
+  obtain ⟨d, rfl⟩ : ∃ d, fuel = h.n.toNat + 1 + d := ⟨fuel - (h.n.toNat + 1), by omega⟩
+  exact Delete_le h hn d
+
+-- non-vacuity: the generated definitions compute (insert 5, 3, 8 into a heap of initial size 1, then delete the
+-- minimum): keys come out in order and the array was resized on the way
+example :
+    (do let h0 ← NewBinary (K := Int) (V := Int) 1 (fun a b => a - b) (fun a b => a == b)
+        let h1 ← binary.Insert 9 h0 5 50
+        let h2 ← binary.Insert 9 h1 3 30
+        let h3 ← binary.Insert 9 h2 8 80
+        let (h4, k, v, ok) ← binary.Delete 9 h3
+        pure (k, v, ok, h4.n, h4.heap.size, binary.Size h3)) = .ok (3, 30, true, 2, 4, 3) := by decide
